@@ -28,7 +28,7 @@ import (
 // Responses whose body exceeds MaxResponseBodySize are enumerated over their own sub-space: framing of the body
 // (Content-Length, chunked, close-delimited = neither: read until the peer closes) x amount by which the limit is exceeded
 // (one byte; several times the limit) x the limit itself relative to the sizes of the buffers the body readers use
-// (10: crossed inside the first read; 1023/1024: around the initial 1024-byte body buffer; 2000: crossed only after
+// (10: crossed inside the first read; 1024: exactly the initial 1024-byte body buffer; 2000: crossed only after
 // the body buffer grew; 5000: larger than the 4096-byte bufio.Reader). "Exceeded the limit" is decided by the oracle
 // from the scripted response (body bytes carried/declared > limit), never from the error the client reports.
 
@@ -527,7 +527,7 @@ func TestVerif_C19(t *testing.T) {
 	defer r.End()
 	r.Rule("real HostClient.Do / DoTimeout(2.5s) / DoDeadline(+2.5s) on one caller thread under the virtual clock; the fake Dial hands out one scripted conn per attempt whose fault is a free choice among " +
 		"{dial error, write error, EOF before any response byte, reset mid-response, silent server (read deadline, ReadTimeout 1s), Content-Length body over MaxResponseBodySize, ok, close-delimited body (no Content-Length, not chunked) over MaxResponseBodySize; thorough adds: write error after 10 bytes, reset mid-body, chunked body (3 chunks) over the limit}: the complete tree of fault sequences (<=6 attempts) is enumerated " +
-		"x for every oversized body the excess {limit+1; thorough adds 3*limit+70} x MaxResponseBodySize {10 (crossed inside the first read), 2000 (crossed only after the 1024-byte body buffer grew); thorough adds 1023, 1024 (around the initial body buffer) and 5000 (> the 4096-byte bufio.Reader)} x capacity of the response body buffer the call starts with {0 = none (the reader allocates 1024); thorough adds 8 (a small recycled buffer that has to grow)} " +
+		"x for every oversized body the excess {limit+1; thorough adds 3*limit+70} x MaxResponseBodySize {10 (crossed inside the first read), 2000 (crossed only after the 1024-byte body buffer grew); thorough adds 1024 (exactly the initial body buffer) and 5000 (> the 4096-byte bufio.Reader)} x capacity of the response body buffer the call starts with {0 = none (the reader allocates 1024); thorough adds 8 (a small recycled buffer that has to grow)} " +
 		"x method {GET,HEAD,PUT,POST,DELETE,PATCH,OPTIONS} x body stream yes/no x MaxIdemponentCallAttempts {0,1,2} x 11 callback configurations (RetryIf true/false, RetryIfErr / RetryIfErrUpstream with and without timeout reset, attempt-dependent, RetryIf shadowed by RetryIfErr). " +
 		"Oracle per call: transmissions (conns that accepted request bytes) and attempts <= limit (5 by default); methods other than GET/HEAD/PUT transmitted at most 1 + (callback answers 'retry'); no attempt after an attempt whose scripted response body (carried, or declared by Content-Length) was larger than MaxResponseBodySize, whatever error the client derived from it (sig names the framing); " +
 		"a single attempt with a body stream; with a request timeout the call returns (and starts no attempt) later than timeout after the start or after the last reset a callback asked for. Non-trivial: calls with >=2 attempts")
@@ -537,7 +537,7 @@ func TestVerif_C19(t *testing.T) {
 	var scs []mcx.Scenario
 	nf := vrt.Pick(r, 8, 11)
 	r.Set("fault_alphabet", c19faults[:nf])
-	limits := vrt.Pick(r, []int{10, 2000}, []int{10, 1023, 1024, 2000, 5000})
+	limits := vrt.Pick(r, []int{10, 2000}, []int{10, 1024, 2000, 5000})
 	nover := vrt.Pick(r, 1, 2)
 	r.Set("max_response_body_sizes", fmt.Sprint(limits))
 	r.Set("oversized_body_excess_amounts", nover)
